@@ -78,6 +78,15 @@ Settle == /\ phase = "hs" /\ sent # {}
           /\ phase' = "steady" /\ Log("Settle")
           /\ UNCHANGED <<ta, tb, pa, pb, inA, inB, outA, outB, pdA, pdB, net, sent, swaps, dropped>>
 
+\* ... or when the network has lost every copy of a handshake that is still incomplete and goes on losing the
+\* retransmissions until its initiator gives up: a node may be left with the responder side of a handshake whose
+\* initiator never completed it (a half-open tunnel, which only the connection manager's probe discovers)
+Complete(p) == p \in ta /\ p \in tb
+GiveUp == /\ phase = "hs" /\ sent # {} /\ (ta # {} \/ tb # {})
+          /\ \E p \in Pairs : ("hs1" \o p) \in sent /\ ~Complete(p)
+          /\ phase' = "steady" /\ Log("GiveUp")
+          /\ UNCHANGED <<ta, tb, pa, pb, inA, inB, outA, outB, pdA, pdB, net, sent, swaps, dropped>>
+
 (* ---- traffic, in both phases ---- *)
 DataA == /\ pa # "none" /\ Log("DataA")
          /\ outA' = [outA EXCEPT ![pa] = TRUE]
@@ -145,7 +154,7 @@ CheckB(t) ==
     /\ UNCHANGED <<ta, pa, pdA, swaps, net, sent, phase, dropped>>
 
 Next == /\ (RecordHist => Len(hist) < MaxHist)
-        /\ \/ StartA \/ StartB \/ Hs1AtB \/ Hs1AtA \/ Hs2AtA \/ Hs2AtB \/ Settle \/ DataA \/ DataB
+        /\ \/ StartA \/ StartB \/ Hs1AtB \/ Hs1AtA \/ Hs2AtA \/ Hs2AtB \/ Settle \/ GiveUp \/ DataA \/ DataB
            \/ \E t \in Pairs : CheckA(t) \/ CheckB(t)
 
 \* "traffic flows": both nodes keep sending; "quiet network": every tunnel is checked again and again
